@@ -1565,6 +1565,13 @@ func (e *Entry) dup() *Entry {
 		ne.Extra[k] = v
 	}
 
+	// Default is a slice: give the copy its own, or a default appended to
+	// one copy (deviate add on a leaf-list) lands in the array it shares
+	// with the others.
+	if e.Default != nil {
+		ne.Default = append([]string{}, e.Default...)
+	}
+
 	// The list attributes and the input and output of an rpc or action are
 	// part of the copy as well: a deviation or augment of one use of a
 	// grouping must not show in another.
